@@ -400,6 +400,74 @@ def check_counts(case):
     return out, calls
 
 
+def check_after_rejected(case):
+    """A multi-sequence call that is rejected (invalid point in the middle) followed - without closing anything - by other plots."""
+    from localcider import plots
+    out = []
+    calls = 0
+    P = plt()
+    P.close("all")
+    objs3 = [SP(s_) for s_ in SEQS]
+    cfg = {"label": None, "title": None, "legend": True, "xLim": 1, "yLim": 1, "font": 10}
+    eps = entry_points()
+    bad_calls = [
+        lambda: plots.show_multiple_phasePlot([0.3, 0.2, 35, 0.1], [0.3, 0.1, 0.1, 0.2], getFig=True),
+        lambda: plots.save_multiple_phasePlot([0.3, 0.2, 0.1], [0.3, -0.5, 0.1], "/nonexistent/x.png"),
+        lambda: plots.show_multiple_phasePlot([0.3, 0.2], [0.3, "abc"], getFig=True),
+    ]
+    followers = ["SP.phaseDiagramPlot", "plots.multiple_uverskyPlot2", "plots.multiple_phasePlot", "SP.uverskyPlot"]
+    for bi, bad in enumerate(bad_calls):
+        for ep in followers:
+            P.close("all")
+            calls += 2
+            try:
+                with SaveSpy(False):
+                    bad()
+                out.append({"key": "invalid-point-accepted", "what": "multi-sequence phase plot accepted an invalid coordinate (call %d)" % bi,
+                            "case": case})
+            except Exception:  # noqa
+                pass
+            kind, n, show, save = eps[ep]
+            objs = objs3 if n == 3 else objs3[:1]
+            try:
+                ret = show(objs, cfg, True)      # NOTE: nothing was closed after the rejected call
+            except Exception as e:  # noqa
+                out.append({"key": "plot-raises:" + ep, "what": "%s after a rejected multi-sequence call raised %r" % (ep, e), "case": case})
+                continue
+            fig = fig_of(ret) or P.gcf()
+            judge_fig(inspect(fig), kind, objs, cfg, ep, "show after rejected call %d" % bi, dict(case, follower=ep, bad=bi), out)
+    P.close("all")
+    return out, calls
+
+
+def check_homopolymers(case):
+    """Every homopolymer X^n: both single-sequence diagrams must draw it at its true coordinates (no exception)."""
+    out = []
+    calls = 0
+    P = plt()
+    cfg = {"label": "", "title": None, "legend": False, "xLim": 1, "yLim": 1, "font": 10}
+    eps = entry_points()
+    for n in range(case["lo"], case["hi"] + 1):
+        seq = case["res"] * n
+        o = [SP(seq)]
+        for ep in ("SP.uverskyPlot", "SP.phaseDiagramPlot"):
+            kind, _, show, save = eps[ep]
+            P.close("all")
+            calls += 1
+            try:
+                ret = show(o, cfg, True)
+            except Exception as e:  # noqa
+                out.append({"key": "plot-raises:" + ep, "what": "%s on %s^%d raised %r" % (ep, case["res"], n, e), "case": dict(case, n=n)})
+                continue
+            d = inspect(fig_of(ret) or P.gcf())
+            exp = expected_markers(kind, o)
+            if d is None or len(d["markers"]) != 1 or abs(d["markers"][0][0] - exp[0][0]) > TOL or abs(d["markers"][0][1] - exp[0][1]) > TOL:
+                out.append({"key": "marker-position:" + kind, "what": "%s on %s^%d: markers %r, expected %r"
+                            % (ep, case["res"], n, None if d is None else d["markers"], exp), "case": dict(case, n=n)})
+    P.close("all")
+    return out, calls
+
+
 def check_polygons(case):
     """Polygons read once from a real figure; every composition of total lo..hi classified by the real classifier."""
     out = []
@@ -434,6 +502,10 @@ def check_polygons(case):
 def check_case(case):
     if case["kind"] == "counts":
         return check_counts(case)
+    if case["kind"] == "after-rejected":
+        return check_after_rejected(case)
+    if case["kind"] == "homopolymers":
+        return check_homopolymers(case)
     if case["kind"] == "polygons":
         return check_polygons(case)
     if case["kind"] == "region":
@@ -478,6 +550,11 @@ def run(tier, seed, t0):
     cases += [{"kind": "polygons", "lo": lo, "hi": min(NP, lo + step - 1)} for lo in range(NK + 1, NP + 1, step)]
     for ep in ("plots.multiple_phasePlot", "plots.multiple_phasePlot2", "plots.multiple_uverskyPlot", "plots.multiple_uverskyPlot2"):
         cases.append({"kind": "counts", "ep": ep, "counts": [3, 5, 2, 1, 4]})
+    cases.append({"kind": "after-rejected"})
+    HN = 40 if tier == "quick" else 120
+    for res in "ACDEFGHIKLMNPQRSTVWY":
+        for lo in range(1, HN + 1, 20):
+            cases.append({"kind": "homopolymers", "res": res, "lo": lo, "hi": min(HN, lo + 19)})
     cfgs = []
     for label, title, legend, xl, yl, font in itertools.product(("", "x", LONGLABEL), (None, "My title"), (True, False),
                                                                  (1, 0.5), (1, 0.5), (10, 6)):
@@ -506,14 +583,16 @@ def run(tier, seed, t0):
              "backend: one marker at (f+,f-), five polygons read back from the figure, vertices taken as the decimals they denote, the "
              "exact rational marker must lie (closed) inside the polygon whose index is get_phasePlotRegion(); beyond that, up to total %d, the polygons are read once from a "
              "real figure and every composition is classified by the real get_phasePlotRegion() and tested for containment; the "
-             "multi-sequence entry points are called with 3,5,2,1,4 unlabelled sequences in turn in one process. (2) entry points x "
+             "multi-sequence entry points are called with 3,5,2,1,4 unlabelled sequences in turn in one process; a rejected multi-sequence "
+             "call (invalid coordinate in the middle) is followed, without closing anything, by four other plots; every homopolymer "
+             "X^n (20 residues, n up to %d) is drawn on both single-sequence diagrams. (2) entry points x "
              "configurations: %d entry point families (show with getFig True/False + save; object methods and the plots module, "
              "single / multiple / multiple2) x the full product label{'', 'x', long} x title{default,custom} x legend x xLim{1,.5} x "
              "yLim{1,.5} x font{10,6} (96 configurations) on three sequences: markers at the true coordinates, requested title, axis "
              "labels, limits, point labels and font, a figure returned when getFig; every entry point x {png,pdf,svg} written to a "
              "real temp file. (3) linear plots: show/save_linear{NCPR,FCR,Sigma,Hydropathy} x windows: N bars centred on 1..N with "
              "the heights of get_linear_*. save_* figures are inspected at the moment savefig is called. non-trivial = all but "
-             "single-charge-type region cases" % (NK, NP, len(ep_sel)),
+             "single-charge-type region cases" % (NK, NP, HN, len(ep_sel)),
         bounds={"region_K": NK, "entry_points": len(ep_sel), "configurations": len(cfgs), "linear_sequences": len(lin_seqs)},
         assumptions=["dont-care: byte format of the written file, legend contents, label offsets",
                      "getFig returns the matplotlib.pyplot module; the current figure is read from it"],
